@@ -151,6 +151,9 @@ impl Consist {
         };
         let _ = consist.n_res_equipped();
         consist.set_save_interval(save_interval);
+        // same derived limit that `init` sets after loading, so that a freshly constructed
+        // consist and its saved-and-reloaded copy behave identically in the first time step
+        consist.set_pwr_dyn_brake_max();
         consist
     }
 
@@ -424,6 +427,8 @@ impl Default for Consist {
         // ensure propagation to nested components
         consist.set_save_interval(Some(1));
         let _mass = consist.mass().unwrap();
+        // see `Consist::new`
+        consist.set_pwr_dyn_brake_max();
         consist
     }
 }
